@@ -7,6 +7,7 @@ import (
 	"fmt"
 	"go/types"
 	"sort"
+	"strconv"
 	"strings"
 
 	"golang.org/x/tools/go/ssa"
@@ -114,6 +115,13 @@ func (eng *Engine) verifyFunc(fn *ssa.Function, fc *FuncContract, props []string
 			}
 			e.sc.assert(t)
 		}
+		for _, u := range fc.Uses {
+			c := e.specEnv(st, nil)
+			if err := e.useHint(c, st, u); err != nil {
+				res.Err = err
+				return
+			}
+		}
 		e.entry = st.clone()
 		entry = e.entry
 	}
@@ -122,6 +130,7 @@ func (eng *Engine) verifyFunc(fn *ssa.Function, fc *FuncContract, props []string
 
 	exits := e.run(fn, st, fc)
 	exits = e.applyRecover(fn, fc, exits)
+	exits = e.mergeExits(exits)
 
 	// exits against ensures
 	resNames := []string{}
@@ -142,13 +151,13 @@ func (eng *Engine) verifyFunc(fn *ssa.Function, fc *FuncContract, props []string
 		}
 	}
 	nret := 0
-	for xi, ex := range exits {
+	for _, ex := range exits {
 		if ex.st.pc == "false" {
 			continue
 		}
 		if ex.kind == exitSoft && !mentionsSoft {
 			if fc != nil || eng.boundary(fn) {
-				e.checkPost(ex.st, "escape", fmt.Sprintf("softpanic%d", xi), "false", nil, e.eng.posString(fn.Pos()))
+				e.checkPost(ex.st, "escape", "softpanic", "false", nil, e.eng.posString(fn.Pos()))
 			}
 			continue
 		}
@@ -183,10 +192,36 @@ func (eng *Engine) verifyFunc(fn *ssa.Function, fc *FuncContract, props []string
 				label = fmt.Sprintf("%d", ci)
 			}
 			kind := "ensures"
-			e.checkPost(ex.st, kind, fmt.Sprintf("%s.exit%d", label, xi), t, cl.Props, fmt.Sprintf("%s:%d", cl.File, cl.Line))
+			if ex.kind == exitSoft {
+				label += ".panic"
+			}
+			where := fmt.Sprintf("%s:%d", cl.File, cl.Line)
+			if cs, ok := fc.Flags["cases"]; ok && ex.kind == exitReturn {
+				// cases <lo> <hi> <expr>: one obligation per value of expr, plus completeness
+				parts := strings.SplitN(cs, " ", 3)
+				lo, _ := strconv.Atoi(parts[0])
+				hi, _ := strconv.Atoi(parts[1])
+				cc := e.specEnv(ex.st, entry)
+				cc.where = where
+				var inRange []string
+				for k := lo; k <= hi; k++ {
+					ct, err := cc.evalBool(fmt.Sprintf("(%s) == %d", parts[2], k))
+					if err != nil {
+						res.Err = err
+						return
+					}
+					inRange = append(inRange, ct)
+					e.checkPost(ex.st, kind, fmt.Sprintf("%s.case%d", label, k), imp(ct, t), cl.Props, where)
+				}
+				if ci == 0 {
+					e.checkPost(ex.st, kind, "cases-complete", or(inRange...), cl.Props, where)
+				}
+				continue
+			}
+			e.checkPost(ex.st, kind, label, t, cl.Props, where)
 		}
 		if fc.HasMod {
-			e.frameCheck(ex.st, entry, fc, xi)
+			e.frameCheck(ex.st, entry, fc, int(ex.kind))
 		}
 	}
 	res.Obls = e.obls
@@ -197,6 +232,12 @@ func (eng *Engine) verifyFunc(fn *ssa.Function, fc *FuncContract, props []string
 		}
 	}
 	res.Notes = e.notes
+	for _, n := range e.notes {
+		if strings.HasPrefix(n, "CONTRACT-ERROR") {
+			res.Err = fmt.Errorf("%s: %s", fn.String(), n)
+			return
+		}
+	}
 	for k := range e.libUsed {
 		res.LibUsed = append(res.LibUsed, k)
 	}
@@ -215,6 +256,45 @@ func resTypes(fn *ssa.Function) []types.Type {
 	var out []types.Type
 	for i := 0; i < fn.Signature.Results().Len(); i++ {
 		out = append(out, fn.Signature.Results().At(i).Type())
+	}
+	return out
+}
+
+// mergeExits joins all return exits into one and all soft-panic exits into one,
+// so that postcondition obligations have stable names.
+func (e *Exec) mergeExits(exits []Exit) []Exit {
+	var out []Exit
+	for _, kind := range []exitKind{exitReturn, exitSoft} {
+		var sts []*State
+		key := &ssa.Parameter{}
+		for _, ex := range exits {
+			if ex.kind != kind || ex.st.pc == "false" {
+				continue
+			}
+			if kind == exitReturn {
+				ex.st.vals[key] = packResults(ex.results)
+			} else {
+				ex.st.vals[key] = Val{T: types.NewInterfaceType(nil, nil), S: ex.pv}
+			}
+			sts = append(sts, ex.st)
+		}
+		if len(sts) == 0 {
+			continue
+		}
+		m := e.merge(sts, fmt.Sprintf("exit%d", kind))
+		rv := m.vals[key]
+		delete(m.vals, key)
+		ex := Exit{kind: kind, st: m}
+		if kind == exitReturn {
+			if rv.Tup != nil {
+				ex.results = rv.Tup
+			} else if rv.T != nil && (rv.S != "" || rv.A != nil || rv.Fn != nil) {
+				ex.results = []Val{rv}
+			}
+		} else {
+			ex.pv = rv.S
+		}
+		out = append(out, ex)
 	}
 	return out
 }
@@ -313,7 +393,7 @@ func (e *Exec) frameCheck(st, entry *State, fc *FuncContract, xi int) {
 	c := e.specEnv(entry, nil)
 	targets, err := e.evalModifies(c, fc.Modifies)
 	if err != nil {
-		e.note("modifies: %v", err)
+		e.note("CONTRACT-ERROR modifies: %v", err)
 		return
 	}
 	topE := e.top(entry)
@@ -340,7 +420,7 @@ func (e *Exec) frameCheck(st, entry *State, fc *FuncContract, xi int) {
 			continue
 		}
 		if strings.HasPrefix(k, "G|") {
-			e.checkPost(st, "frame", k+fmt.Sprintf(".exit%d", xi), eq(cur, init), nil, fmt.Sprintf("%s:%d", fc.File, fc.Line))
+			e.checkPost(st, "frame", k+exitSuffix(xi), eq(cur, init), nil, fmt.Sprintf("%s:%d", fc.File, fc.Line))
 			continue
 		}
 		r := e.sc.fresh("fr", "Int")
@@ -350,7 +430,7 @@ func (e *Exec) frameCheck(st, entry *State, fc *FuncContract, xi int) {
 			conds = append(conds, not(eq(r, x)))
 		}
 		goal := imp(and(conds...), fmt.Sprintf("(= (select %s %s) (select %s %s))", cur, r, init, r))
-		e.checkPost(st, "frame", k+fmt.Sprintf(".exit%d", xi), goal, nil, fmt.Sprintf("%s:%d", fc.File, fc.Line))
+		e.checkPost(st, "frame", k+exitSuffix(xi), goal, nil, fmt.Sprintf("%s:%d", fc.File, fc.Line))
 	}
 }
 
@@ -414,7 +494,7 @@ func (e *Exec) callByContract(st *State, c *FuncContract, callee *ssa.Function, 
 		x.where = fmt.Sprintf("%s:%d", cl.File, cl.Line)
 		t, err := x.evalBool(cl.Expr)
 		if err != nil {
-			e.note("contract %s: %v", name, err)
+			e.note("CONTRACT-ERROR contract %s: %v", name, err)
 			continue
 		}
 		e.check(st, "requires", fmt.Sprintf("%s.%d:%s", name, i, e.srcText(pos)), t, pos)
@@ -425,7 +505,7 @@ func (e *Exec) callByContract(st *State, c *FuncContract, callee *ssa.Function, 
 		x := mk(pre, nil)
 		targets, err := e.evalModifies(x, c.Modifies)
 		if err != nil {
-			e.note("contract %s: %v", name, err)
+			e.note("CONTRACT-ERROR contract %s: %v", name, err)
 		}
 		for _, t := range targets {
 			if t.sort == "" {
@@ -476,7 +556,7 @@ func (e *Exec) callByContract(st *State, c *FuncContract, callee *ssa.Function, 
 		x.where = fmt.Sprintf("%s:%d", cl.File, cl.Line)
 		t, err := x.evalBool(cl.Expr)
 		if err != nil {
-			e.note("contract %s: %v", name, err)
+			e.note("CONTRACT-ERROR contract %s: %v", name, err)
 			continue
 		}
 		e.assume(st, t)
@@ -629,7 +709,7 @@ func (e *Exec) cutLoopHead(fn *ssa.Function, fc *FuncContract, l *loopInfo, st *
 			c.where = fmt.Sprintf("%s:%d", cl.File, cl.Line)
 			t, err := c.evalBool(cl.Expr)
 			if err != nil {
-				e.note("invariant: %v", err)
+				e.note("CONTRACT-ERROR invariant: %v", err)
 				continue
 			}
 			e.checkPost(st, "inv-init", fmt.Sprintf("loop%d.%d", l.ordinal, i), t, cl.Props, pos)
@@ -663,6 +743,12 @@ func (e *Exec) cutLoopHead(fn *ssa.Function, fc *FuncContract, l *loopInfo, st *
 			}
 			e.assume(st, t)
 		}
+		for _, u := range lc.Uses {
+			c := e.invCtx(fn, l, st)
+			if err := e.useHint(c, st, u); err != nil {
+				e.note("CONTRACT-ERROR use: %v", err)
+			}
+		}
 		if lc.Decreases != "" {
 			c := e.invCtx(fn, l, st)
 			v, err := c.evalExpr(lc.Decreases)
@@ -671,7 +757,7 @@ func (e *Exec) cutLoopHead(fn *ssa.Function, fc *FuncContract, l *loopInfo, st *
 				st.mem[fmt.Sprintf("ghost|measure%d", l.ordinal)] = e.sc.define("measure", e.sc.idx(), v.S)
 				e.memSort[fmt.Sprintf("ghost|measure%d", l.ordinal)] = e.sc.idx()
 			} else {
-				e.note("decreases: %v", err)
+				e.note("CONTRACT-ERROR decreases: %v", err)
 			}
 		}
 	}
@@ -691,7 +777,7 @@ func (e *Exec) checkLoopBack(fn *ssa.Function, fc *FuncContract, l *loopInfo, st
 		c.where = fmt.Sprintf("%s:%d", cl.File, cl.Line)
 		t, err := c.evalBool(cl.Expr)
 		if err != nil {
-			e.note("invariant: %v", err)
+			e.note("CONTRACT-ERROR invariant: %v", err)
 			continue
 		}
 		e.checkPost(st, "inv-step", fmt.Sprintf("loop%d.%d", l.ordinal, i), t, cl.Props, pos)
@@ -765,4 +851,31 @@ func (e *Exec) runFrom(fn *ssa.Function, fc *FuncContract, b *ssa.BasicBlock, st
 		}
 	}
 	return exits
+}
+
+func exitSuffix(kind int) string {
+	if kind == int(exitSoft) {
+		return ".panic"
+	}
+	return ""
+}
+
+// useHint assumes an instance of an axiom schema of the spec library. Only
+// calls of spec functions named *_ax that the library declares as an axiom
+// ("; axiom NAME") are accepted, so a hint can only add a true instance.
+func (e *Exec) useHint(c *specCtx, st *State, src string) error {
+	name := strings.TrimSpace(src)
+	if i := strings.Index(name, "("); i > 0 {
+		name = name[:i]
+	}
+	if !strings.HasSuffix(name, "_ax") || !e.eng.spec.isAxiom(name, e.mode) {
+		return fmt.Errorf("use %q: not an axiom schema of the spec library", src)
+	}
+	t, err := c.evalBool(src)
+	if err != nil {
+		return err
+	}
+	e.assume(st, t)
+	e.libUsed["axiom:"+name] = true
+	return nil
 }
